@@ -133,8 +133,12 @@ def worker(version, args):
             else:
                 vals = [("ascii-n", "a" * n), ("ascii-n+1", "a" * (n + 1)), ("multibyte-fit", "é" * (n // 2)),
                         ("multibyte-chars-fit-bytes-over", "é" * (n // 2 + 1))]
+                if is_list and len(old) >= 2 and n >= 12:
+                    # a LATER entry that has fewer characters than the first one but more bytes than the field holds
+                    vals.append(("later-entry-fewer-chars-more-bytes", "€" * (n // 3 + 1)))
             for cls, v in vals:
-                newv = ([v] + old[1:]) if is_list else v
+                pos = 1 if cls == "later-entry-fewer-chars-more-bytes" else 0
+                newv = (["a" * (n - 6), v] + old[2:]) if pos == 1 else (([v] + old[1:]) if is_list else v)
                 rep = representable(r, v, _no_string_trail)
                 with cc.quiet():
                     setattr(sec, name, newv)
@@ -157,7 +161,7 @@ def worker(version, args):
                             got = getattr(got, nm)
                             if ix is not None:
                                 got = got[ix]
-                        g = got[0] if is_list and isinstance(got, list) else got
+                        g = got[pos] if is_list and isinstance(got, list) else got
                         reloaded_equal = (g == v)
                         del scn2
                     else:
